@@ -36,8 +36,8 @@ def _regex_list(folder: Folder, name: str) -> list[Regex]:
     return val
 
 
-def rule_languages(ck: Check, repo: Repo, folder: Folder) -> dict:
-    r = ck.rule("R1", "ignore-name languages equal the specified languages (unbounded names)")
+def rule_languages(ck: Check, repo: Repo, folder: Folder, rid: str = "R1") -> dict:
+    r = ck.rule(rid, "ignore-name languages equal the specified languages (unbounded names)")
     tables = {
         "_IGNORE_DIR_PATTERNS": (REF_DIR, 5),
         "_IGNORE_FILE_PATTERNS": ([p for p, _ in REF_FILE], 8),
@@ -449,6 +449,40 @@ def file_list_source(r, repo: Repo) -> None:
 
 
 
+def rule_vcs_output_verbatim(ck: Check, repo: Repo, rid: str) -> None:
+    """Paths printed by a VCS command are file names: only the record separator may be removed from them.  A
+    whitespace strip() also removes blanks that belong to the name (a directory called "proj " becomes "proj": another
+    directory), so the root - and with it everything a command reads or writes - silently moves."""
+    r = ck.rule(rid, "paths taken from VCS command output keep their exact spelling (no whitespace strip)")
+    n = 0
+    for q, fn in sorted(repo.functions.items()):
+        if not q.startswith("reuse.vcs."):
+            continue
+        uses_output = any(isinstance(x, ast.Attribute) and x.attr == "stdout" for x in ast.walk(fn))
+        if not uses_output:
+            continue
+        for c in ast.walk(fn):
+            if isinstance(c, ast.Call) and isinstance(c.func, ast.Attribute) and c.func.attr in ("strip", "rstrip", "lstrip") \
+                    and repo.enclosing_function(c) is fn:
+                arg = c.args[0].value if c.args and isinstance(c.args[0], ast.Constant) else None
+                n += 1
+                lossy = not c.args or (isinstance(arg, str) and any(ch in arg for ch in " \t")) or (c.args and arg is None)
+                r.instance(f"{q}:{ast.unparse(c)[:50]}", {"function": q, "call": ast.unparse(c)[:80], "removes_blanks": lossy}, q)
+                if lossy:
+                    r.violation(q, f"VCS output is whitespace-stripped: {ast.unparse(c)[:60]}",
+                                "a file or directory name may end (or begin) with blanks; stripping them names a DIFFERENT path - for"
+                                " find_root the whole project root moves to a sibling directory", repo.loc(c))
+        for sub in ast.walk(fn):
+            if isinstance(sub, ast.Subscript) and isinstance(sub.slice, ast.Slice) and "stdout" in ast.unparse(sub.value):
+                n += 1
+                r.instance(f"{q}:{ast.unparse(sub)[:50]}", {"function": q, "slice": ast.unparse(sub)[:80]}, q)
+                if ast.unparse(sub.slice) != ":-1":
+                    r.violation(q, f"VCS output is cut with {ast.unparse(sub.slice)}", "only the final newline may be removed",
+                                repo.loc(sub))
+    r.floor(3, "trimming sites on VCS output", got=n)
+
+
+
 def shared_decision(ck: Check, repo: Repo, rid: str) -> None:
     """The decision table of is_path_ignored for another property that depends on the covered-file set (the name
     languages themselves are C03-R1's business; only the meson parent language is needed to instantiate the table)."""
@@ -715,6 +749,7 @@ def run(ck: Check, repo: Repo) -> None:
     langs = rule_languages(ck, repo, folder)
     rule_decision(ck, repo, langs)
     rule_path_bases(ck, repo, "R6")
+    rule_vcs_output_verbatim(ck, repo, "R7")
     rule_walk(ck, repo)
     rule_forwarding(ck, repo)
     rule_vcs(ck, repo)
